@@ -112,11 +112,16 @@ structure Frame where
 deriving Repr, DecidableEq
 
 /-- State of `LimitedSource<…<SliceSource>>`: remaining octets of the base source, the current
-    limit of the innermost `LimitedSource`, and open capture frames (innermost first). -/
+    limit of the innermost `LimitedSource`, open capture frames (innermost first), and `seen`:
+    how many of the next octets the *stingiest* source allowed by the `Source` contract (one that
+    grants exactly `min(len, available)`) has granted so far.  Looking at, extracting or advancing
+    over more than `seen` octets is a breach of the trait contract by the library and is a panic
+    in the model, although `SliceSource` itself would not notice. -/
 structure G where
   data : Bytes
   limit : Option Nat
   frames : List Frame := []
+  seen : Nat := 0
 deriving Repr, DecidableEq
 
 /-- what `LimitedSource::slice` shows / `request` grants -/
@@ -125,63 +130,66 @@ def G.view (s : G) : Bytes :=
   | none => s.data
   | some l => s.data.take l
 
+/-- `request(n)` on the limited source: the stingy watermark after it -/
+def G.request (s : G) (n : Nat) : G := { s with seen := max s.seen (min n s.view.length) }
+
 /-- `LimitedSource::advance` over `SliceSource::advance` (+ `CaptureSource::advance`) -/
 def G.advance (s : G) (n : Nat) : Res G :=
+  if s.seen < n then .error (.panic "CONTRACT advance beyond granted") else
   if s.data.length < n then .error (.panic "advance past end of data") else
   let frames := match s.frames with
     | [] => []
     | f :: fs => { f with buf := f.buf ++ s.data.take n } :: fs
   match s.limit with
-  | none => .ok { s with data := s.data.drop n, frames := frames }
+  | none => .ok { s with data := s.data.drop n, frames := frames, seen := s.seen - n }
   | some l =>
     if l < n then .error (.panic "advanced past end of limit")
-    else .ok { data := s.data.drop n, limit := some (l - n), frames := frames }
+    else .ok { data := s.data.drop n, limit := some (l - n), frames := frames, seen := s.seen - n }
 
 def stepG (s : G) : Op → Res (Resp × G)
   | .takeOptU8 =>
+    let s := s.request 1
     match s.view with
     | [] => .ok (.byte none, s)
     | b :: _ =>
       match s.advance 1 with
       | .ok s' => .ok (.byte (some b), s')
       | .error e => .error e
-  | .peekAt i => .ok (.byte s.view[i]?, s)
-  | .peek2 => .ok (.byte2 s.view[0]? s.view[1]?, s)
-  | .need n => .ok (.bool (decide (n ≤ s.view.length)), s)
+  | .peekAt i => let s := s.request (i + 1); .ok (.byte s.view[i]?, s)
+  | .peek2 => let s := s.request 2; .ok (.byte2 s.view[0]? s.view[1]?, s)
+  | .need n => let s := s.request n; .ok (.bool (decide (n ≤ s.view.length)), s)
   | .takeN n =>
-    if s.view.length < n then .error (.panic "bytes past granted") else
+    if s.view.length < n then .error (.panic "bytes past limit or data")
+    else if s.seen < n then .error (.panic "CONTRACT bytes beyond granted") else
     match s.advance n with
     | .ok s' => .ok (.bytes (s.data.take n), s')
     | .error e => .error e
   | .skipN n =>
-    if s.view.length < n then .error (.panic "advance past granted") else
+    if s.view.length < n then .error (.panic "advance past limit or data") else
     match s.advance n with
     | .ok s' => .ok (.unit, s')
     | .error e => .error e
   | .sliceN n =>
-    if s.view.length < n then .error (.panic "slice past granted") else
+    if s.view.length < n then .error (.panic "slice index past limit or data")
+    else if s.seen < n then .error (.panic "CONTRACT slice beyond granted") else
     .ok (.bytes (s.data.take n), s)
   | .getLimit => .ok (.lim s.limit, s)
   | .setLimit l => .ok (.unit, { s with limit := l })
-  | .reqCapped n => .ok (.nat (min n s.view.length), s)
+  | .reqCapped n => let s := s.request n; .ok (.nat (min n s.view.length), s)
   | .capBegin => .ok (.unit, { s with frames := { buf := [], outer := s.limit } :: s.frames })
   | .capEnd =>
     match s.frames with
     | [] => .error (.panic "capEnd without frame")
     | f :: fs =>
       -- `into_bytes`: outer.bytes(0,pos); outer.advance(pos) on the enclosing LimitedSource
+      let fs' := match fs with
+        | [] => []
+        | g :: gs => { g with buf := g.buf ++ f.buf } :: gs
       match f.outer with
       | some l =>
         if l < f.buf.length then .error (.panic "advanced past end of limit") else
-        let fs' := match fs with
-          | [] => []
-          | g :: gs => { g with buf := g.buf ++ f.buf } :: gs
         .ok (.bytes f.buf, { s with limit := some (l - f.buf.length), frames := fs' })
-      | none =>
-        let fs' := match fs with
-          | [] => []
-          | g :: gs => { g with buf := g.buf ++ f.buf } :: gs
-        .ok (.bytes f.buf, { s with limit := none, frames := fs' })
+      | none => .ok (.bytes f.buf, { s with limit := none, frames := fs' })
 
 def runG : Prog α → G → Res (α × G)
   | .ret a, s => .ok (a, s)
